@@ -4,6 +4,10 @@ writes seeded/<id>/meta.json."""
 import json, os, subprocess, sys, re
 sys.path.insert(0, "/verif")
 from seeds_index import SEEDS  # noqa
+def patch_of(d):
+    """the change as ported to the current HEAD of /repo if the original no longer applies"""
+    return d + "/patch-current.diff" if os.path.exists(d + "/patch-current.diff") else d + "/patch.diff"
+
 NEEDS = {
  "a04": "interleaving: a resync pass reads its checklist, then the old incarnation's unbind and the same-named replacement's bind run, then resync handles the stale entry",
  "a05": "fault: the 2nd or later FloatingIP creation of a multi-range allocation fails",
@@ -65,7 +69,9 @@ for sid, (prop, pkg) in SEEDS.items():
     d = "/verif/seeded/" + sid
     if subprocess.run("git -C /repo status --short | grep -q .", shell=True).returncode == 0:
         print("/repo not clean"); sys.exit(2)
-    subprocess.check_call(["git", "-C", "/repo", "apply", d + "/patch.diff"])
+    if os.path.exists(d + "/NOT-PORTABLE.md"):
+        print(sid, "skipped: not portable to the current HEAD, see NOT-PORTABLE.md"); continue
+    subprocess.check_call(["git", "-C", "/repo", "apply", patch_of(d)])
     also = {}
     try:
         p = subprocess.run(["/verif/vcheck", prop, "--no-evidence"], stdout=subprocess.PIPE, stderr=subprocess.STDOUT, text=True)
